@@ -12,15 +12,17 @@ HOSTS = ["plain", "instr", "queued", "queued_off"]
 
 def configs():
   out = []
-  for deco in (False, True):
+  for deco in (False, True, "other"):
     for host in HOSTS:
       if host.startswith("queued"):
         for ls, lt in itertools.product((False, True), repeat=2):
           for drive in ("dispatch", "post"):
-            out.append({"deco": deco, "host": host, "live_spy": ls, "live_trace": lt, "drive": drive})
+            for poll in (False, True):
+              out.append({"deco": deco, "host": host, "live_spy": ls, "live_trace": lt,
+                          "drive": drive, "poll": poll})
       else:
         out.append({"deco": deco, "host": host, "live_spy": False, "live_trace": False,
-                    "drive": "dispatch"})
+                    "drive": "dispatch", "poll": False})
   return out
 
 
@@ -52,6 +54,12 @@ def transcript(case, cfg):
       else:
         chart.dispatch(e)
       out.append((list(rt.log), chart.state_name))
+      if cfg["poll"]:
+        # read-only observers a user may call between steps
+        chart.current_state()
+        chart.spy()
+        chart.trace()
+        chart.spy_rtc()
   except HarnessBound as ex:
     out.append(("did not terminate", str(ex)))
   except Exception as ex:
@@ -60,19 +68,21 @@ def transcript(case, cfg):
 
 
 def cfg_name(c):
-  return "%s/%s%s%s/%s" % ("decorated" if c["deco"] else "bare", c["host"],
-                           "+live_spy" if c["live_spy"] else "",
-                           "+live_trace" if c["live_trace"] else "", c["drive"])
+  return "%s/%s%s%s/%s%s" % ({False: "bare", True: "decorated", "other": "other-decorator"}[c["deco"]],
+                             c["host"], "+live_spy" if c["live_spy"] else "",
+                             "+live_trace" if c["live_trace"] else "", c["drive"],
+                             "+polled" if c["poll"] else "")
 
 
 class C18(Prop):
   id = "C18"
-  quick_examples = 1200
+  quick_examples = 500
   thorough_examples = 6000
   rule = ("Hypothesis-generated chart x start state x event list, each executed under %d "
-          "configurations: {decorator on/off} x {plain, instrumented, queued with "
-          "instrumentation on/off} x {live spy} x {live trace} x {dispatch directly / post + "
-          "complete_circuit} (active-object hosts are exercised by the scheduler-based checks). "
+          "configurations: {no decorator, the spy decorator, some other functools.wraps decorator} x "
+          "{plain, instrumented, queued with instrumentation on/off} x {live spy} x {live trace} x "
+          "{dispatch directly / post + complete_circuit} x {read-only observers current_state(), "
+          "spy(), trace(), spy_rtc() polled between steps or not} (active-object hosts are exercised by the scheduler-based checks). "
           "Differential oracle: the handlers' action log (entries, exits, inits, user-signal "
           "clauses) and the resting state after start_at and after every event are identical in "
           "every configuration. Non-trivial: the case contains >=1 transition with "
